@@ -590,6 +590,10 @@ def read_facts():
                 return "INTERIM"
             if re.search(r"keep_alive_backend$", t0):
                 return "KAB"
+            if re.search(r"\bfront\)*\.is_terminated\(\)$", t0):
+                return "REQ_TERM"
+            if re.search(r"\bfront\)*\.is_completed\(\)$", t0):
+                return "REQ_WRITTEN"
             if re.search(r"\.is_terminated\(\)$", t0):
                 return "TERM"
             return extra(t0)
@@ -604,7 +608,10 @@ def read_facts():
         e = R.parse_bool(guard_expr(eb, ps[0], binds), interim_cl(lambda t0: None), binds)
         A = lambda n: ("atom", n)
         want = ("and", ("and", A("KAB"), A("TERM")), ("not", A("INTERIM")))
-        return "Definition gen_park_requires_terminated : bool := %s." % ("true" if R.bool_implies(e, want) else "false")
+        # the request side (the model's "request completely sent": parsed to its end; the source also asks that
+        # every byte of it was written, which the model does not tell apart)
+        return ("Definition gen_park_requires_terminated : bool := %s.\n" % ("true" if R.bool_implies(e, want) else "false")
+                + "Definition gen_park_requires_request_sent : bool := %s." % ("true" if R.bool_implies(e, A("REQ_TERM")) else "false"))
     fact("gen_park_requires_terminated", f_park)
 
     def f_waits():
@@ -682,7 +689,7 @@ FACT_ORDER = ["gen_esd", "gen_connect", "gen_front_timeout", "gen_back_timeout",
               "gen_park_requires_terminated", "gen_close_waits_behind_interim"]
 GEN_TAIL = ("Definition gen_tables : tables :=\n  mkT gen_esd gen_connect gen_redirect_fallback gen_front_timeout gen_back_timeout\n"
             "      (fun h2 => if h2 then gen_end_arm_h2 else gen_end_arm_h1) gen_default_answer_effs gen_force_effs gen_known_codes\n"
-            "      gen_conn_retries gen_retry_guard_ge gen_rearm_after_write gen_rearm_delay_close gen_rearm_wait gen_rearm_backend_wait\n      gen_h1_close_after_close gen_h1_close_if_request_open gen_h1_head_gate\n      gen_park_requires_terminated gen_close_waits_behind_interim.")
+            "      gen_conn_retries gen_retry_guard_ge gen_rearm_after_write gen_rearm_delay_close gen_rearm_wait gen_rearm_backend_wait\n      gen_h1_close_after_close gen_h1_close_if_request_open gen_h1_head_gate\n      gen_park_requires_terminated gen_park_requires_request_sent gen_close_waits_behind_interim.")
 
 
 def snapshot():
